@@ -18,7 +18,7 @@ RULE = ("a hierarchy of 3-8 classes created with type(name, (Base,), {}) under A
         "Agent and Environment themselves; non-trivial = hierarchy depth >=2 with a sibling and >=1 default-tag change "
         "on a subclass followed by instantiation of that subclass, its parent and its child; distinct = sequence of "
         "(class position in the hierarchy, op, outcome)"
-        "; also: classes created in mid-history (fresh / shared namespace dict / cloned from another class's __dict__), class-level operations issued from __init_subclass__ while a class is being created, model lifecycle ops, rare stress runs with hundreds of classes")
+        "; also: classes created in mid-history (fresh / shared namespace dict / cloned from another class's __dict__), class-level operations issued from __init_subclass__ while a class is being created, model lifecycle ops, rare stress runs with hundreds of classes, one of the three component types is falsy (__len__ == 0)")
 COMPONENTS = {"real": ["ECAgent.Core._MetaAgent (per-class _components / _tag, add/remove/get/has_class_component, "
                        "__getitem__/__len__/__contains__, tag property)", "Agent.__init__ (default tag)", "Environment / "
                        "SpaceWorld constructors"],
@@ -46,7 +46,10 @@ class P1(Component):
 
 
 class P2(Component):
-    pass
+    """A container-like component: falsy (it defines __len__ and holds nothing). Presence is never a matter of truthiness."""
+
+    def __len__(self):
+        return 0
 
 
 PT = [P0, P1, P2]
